@@ -28,12 +28,14 @@ type e2e struct {
 	cl     *telegram.Client
 	answer []byte // result object for the next request
 	gotReq []byte
+	salt   int64
 }
 
 func (x *e2e) connect() {
 	x.net = sess.NewNet(nil)
 	key := sess.TestKey()
 	x.srv = rpcsrv.New(key, 9)
+	x.salt = 1000 + x.salt
 	x.srv.OnRequest = func(msgID int64, body []byte) []byte {
 		x.gotReq = append([]byte{}, body...)
 		return x.answer
@@ -207,8 +209,11 @@ func runMethods(run *vr.Run, c *checker) {
 		}
 		for ai := range vals {
 			calls++
-			x.call(m, pe, d, vals[ai], wires[ai], kind, ai)
+			x.call(m, pe, d, vals[ai], wires[ai], kind, ai, false)
 		}
+		calls++
+		x.call(m, pe, d, vals[0], wires[0], kind, 0, true)
+		x.overlap(m, pe, wires[0])
 	}
 	run.Set("methods_called", called)
 	run.Set("method_calls", calls)
@@ -224,49 +229,27 @@ func (x *e2e) paramsEntry(method string) *tlx.Entry {
 	return nil
 }
 
-func (x *e2e) call(m reflect.Method, pe *tlx.Entry, d *tlschema.Def, wantVal reflect.Value, wire []byte, kind string, ai int) {
+func (x *e2e) call(m reflect.Method, pe *tlx.Entry, d *tlschema.Def, wantVal reflect.Value, wire []byte, kind string, ai int, reject bool) {
 	id := fmt.Sprintf("method|%s|answer#%d", m.Name, ai)
+	if reject {
+		// the server's salt changes just before this request arrives: the request is rejected with
+		// bad_server_salt and the client sends it again by itself; the caller must notice nothing
+		id += "|after-salt-rejection"
+		kind += "|after-salt-rejection"
+		x.salt++
+		x.srv.RotateBefore = map[int]int64{x.srv.EncFrames() + 1: x.salt}
+	}
 	rep := map[string]any{"ID": id}
 	run := x.run
-	ft := m.Type
-	args := []reflect.Value{reflect.ValueOf(x.cl)}
-	expect := reflect.New(pe.Type.Elem())
-	fidx := tlx.Fields(pe.Type.Elem())
-	nargs := ft.NumIn() - 1
-	if nargs == 1 && ft.In(1) == pe.Type {
-		// single params struct
-		v, ok := x.g.Build(pe.Type, 2, false)
-		if !ok {
-			run.Eval(id, false)
-			return
-		}
-		for j, fi := range fidx {
-			if dv, ok := x.distinct(pe.Type.Elem().Field(fi).Type, j); ok {
-				v.Elem().Field(fi).Set(dv)
-			}
-		}
-		args = append(args, v)
-		expect = tlx.Clone(v)
-	} else {
-		if nargs != len(fidx) {
-			run.Eval(id, true)
-			run.Violation("method|"+m.Name+"|arity", fmt.Sprintf("%s takes %d arguments, its function has %d parameters", m.Name, nargs, len(fidx)), rep)
-			return
-		}
-		for j := 0; j < nargs; j++ {
-			dv, ok := x.distinct(ft.In(j+1), j)
-			if !ok {
-				run.Eval(id, false)
-				return
-			}
-			args = append(args, dv)
-			if dv.Type() != pe.Type.Elem().Field(fidx[j]).Type {
-				run.Eval(id, true)
-				run.Violation("method|"+m.Name+"|arg-type|#"+fmt.Sprint(j), fmt.Sprintf("%s: argument %d has type %s, schema parameter %d is held in %s", m.Name, j, dv.Type(), j, pe.Type.Elem().Field(fidx[j]).Type), rep)
-				return
-			}
-			expect.Elem().Field(fidx[j]).Set(dv)
-		}
+	args, expect, why, skip := x.buildArgs(m, pe, 0)
+	if skip {
+		run.Eval(id, false)
+		return
+	}
+	if why != "" {
+		run.Eval(id, true)
+		run.Violation("method|"+m.Name+"|"+why, fmt.Sprintf("%s: %s", m.Name, why), rep)
+		return
 	}
 	wantReq, err := x.c.api.Encode(expect)
 	if err != nil {
@@ -344,6 +327,175 @@ wait:
 	}
 	if ok, path := tlx.Equal(convertible(want, got), got, ""); !ok {
 		run.Violation("method|"+m.Name+"|result|"+kind, fmt.Sprintf("%s: returned value differs from the answer at %s (got %s, want %s)", m.Name, path, got.Type(), want.Type()), rep)
+	}
+}
+
+// buildArgs builds pairwise distinguishable arguments for a generated method (variant shifts every value) and
+// the parameters object the schema defines for them. why != "": the method's signature disagrees with the schema.
+func (x *e2e) buildArgs(m reflect.Method, pe *tlx.Entry, variant int) (args []reflect.Value, expect reflect.Value, why string, skip bool) {
+	ft := m.Type
+	args = []reflect.Value{reflect.ValueOf(x.cl)}
+	expect = reflect.New(pe.Type.Elem())
+	fidx := tlx.Fields(pe.Type.Elem())
+	nargs := ft.NumIn() - 1
+	shift := 40 * variant
+	if nargs == 1 && ft.In(1) == pe.Type {
+		// single params struct
+		v, ok := x.g.Build(pe.Type, 2, false)
+		if !ok {
+			return nil, expect, "", true
+		}
+		for j, fi := range fidx {
+			if dv, ok := x.distinct(pe.Type.Elem().Field(fi).Type, j+shift); ok {
+				v.Elem().Field(fi).Set(dv)
+			}
+		}
+		return append(args, v), tlx.Clone(v), "", false
+	}
+	if nargs != len(fidx) {
+		return nil, expect, fmt.Sprintf("arity: takes %d arguments, its function has %d parameters", nargs, len(fidx)), false
+	}
+	for j := 0; j < nargs; j++ {
+		dv, ok := x.distinct(ft.In(j+1), j+shift)
+		if !ok {
+			return nil, expect, "", true
+		}
+		args = append(args, dv)
+		if dv.Type() != pe.Type.Elem().Field(fidx[j]).Type {
+			return nil, expect, fmt.Sprintf("arg-type|#%d: argument has type %s, schema parameter is held in %s", j, dv.Type(), pe.Type.Elem().Field(fidx[j]).Type), false
+		}
+		expect.Elem().Field(fidx[j]).Set(dv)
+	}
+	return args, expect, "", false
+}
+
+// overlap: two calls of one method with different arguments overlap on one client: A's request is rejected
+// (salt rotation), B's too; B's rejection is delivered first, B is sent again, answered and returns; only then
+// A learns of its rejection and is sent again. Each request the server executes must carry the arguments of
+// its own call. Every wait is structural (queue lengths); if a step does not happen within its deadline the
+// case is counted as not judged.
+func (x *e2e) overlap(m reflect.Method, pe *tlx.Entry, wire []byte) {
+	run := x.run
+	id := "method|" + m.Name + "|overlapping-calls"
+	aArgs, aExp, why, skip := x.buildArgs(m, pe, 0)
+	bArgs, bExp, _, skip2 := x.buildArgs(m, pe, 1)
+	if skip || skip2 || why != "" {
+		return
+	}
+	aReq, e1 := x.c.api.Encode(aExp)
+	bReq, e2 := x.c.api.Encode(bExp)
+	if e1 != nil || e2 != nil || bytes.Equal(aReq, bReq) {
+		return // no arguments to tell the calls apart
+	}
+	var executed [][]byte
+	x.srv.OnRequest = func(msgID int64, body []byte) []byte {
+		executed = append(executed, append([]byte{}, body...))
+		return wire
+	}
+	hold := true
+	x.net.Lock()
+	x.net.Auto = func(c *sess.Conn) {
+		if !hold {
+			c.DeliverAllDefault()
+		}
+	}
+	x.salt++
+	x.srv.RotateBefore = map[int]int64{x.srv.EncFrames() + 1: x.salt}
+	x.net.Unlock()
+	restore := func() {
+		x.net.Lock()
+		hold = false
+		x.net.Auto = nil
+		x.net.Unlock()
+		x.srv.OnRequest = func(msgID int64, body []byte) []byte {
+			x.gotReq = append([]byte{}, body...)
+			return x.answer
+		}
+	}
+	call := func(args []reflect.Value) chan bool {
+		done := make(chan bool, 1)
+		go func() {
+			defer func() { done <- recover() == nil }()
+			m.Func.Call(args)
+		}()
+		return done
+	}
+	waitFor := func(cond func() bool) bool {
+		deadline := time.Now().Add(5 * time.Second)
+		for time.Now().Before(deadline) {
+			x.net.Lock()
+			ok := cond()
+			x.net.Unlock()
+			if ok {
+				return true
+			}
+			time.Sleep(200 * time.Microsecond)
+		}
+		return false
+	}
+	giveUp := func() {
+		run.Count("overlapping_calls_not_judged", 1)
+		restore()
+		x.connect()
+	}
+	conn := func() *sess.Conn { return x.net.Conns[len(x.net.Conns)-1] }
+	deliver := func(i int) { // queue item i, whatever else waits
+		for _, a := range x.srv.Menu() {
+			if len(a.Idx) == 1 && a.Idx[0] == i && !strings.HasPrefix(a.Label, "gzip") && !strings.HasPrefix(a.Label, "event") {
+				conn().Do(a)
+				x.net.Wake()
+				return
+			}
+		}
+	}
+	x.srv.Opt.Reorder = true
+	defer func() { x.srv.Opt.Reorder = false }()
+	doneA := call(aArgs)
+	if !waitFor(func() bool { return len(x.srv.Queue) == 1 }) { // A rejected, the rejection is held
+		giveUp()
+		return
+	}
+	doneB := call(bArgs)
+	if !waitFor(func() bool { return len(x.srv.Queue) == 2 }) { // B rejected as well (it still used the old salt)
+		giveUp()
+		return
+	}
+	x.net.Lock()
+	deliver(1) // B learns first
+	x.net.Unlock()
+	if !waitFor(func() bool { return len(executed) == 1 && len(x.srv.Queue) == 2 }) { // B sent again and executed
+		giveUp()
+		return
+	}
+	x.net.Lock()
+	deliver(1) // B's answer
+	x.net.Unlock()
+	select {
+	case <-doneB:
+	case <-time.After(5 * time.Second):
+		giveUp()
+		return
+	}
+	x.net.Lock()
+	hold = false
+	conn().DeliverAllDefault() // now A learns of its rejection; everything flows freely from here
+	x.net.Wake()
+	x.net.Unlock()
+	select {
+	case <-doneA:
+	case <-time.After(5 * time.Second):
+		giveUp()
+		return
+	}
+	restore()
+	run.Eval(id, true)
+	rep := map[string]any{"ID": id}
+	if len(executed) != 2 || !bytes.Equal(executed[0], bReq) || !bytes.Equal(executed[1], aReq) {
+		what := "the re-sent request of the first call does not carry that call's arguments"
+		if len(executed) == 2 && bytes.Equal(executed[1], bReq) {
+			what = "the re-sent request of the first call carries the arguments of the second call"
+		}
+		run.Violation("method|"+m.Name+"|overlapping-calls|wrong-arguments", fmt.Sprintf("%s: two overlapping calls with different arguments: %s (%d requests executed)", m.Name, what, len(executed)), rep)
 	}
 }
 
